@@ -16,6 +16,7 @@ INLINE_SPOILER_PATTERN = r">!\s*(?P<spoiler_text>\S.*?)\s*!<"
 
 
 def parse_block_spoiler(block: "BlockParser", m: Match[str], state: "BlockState") -> int:
+    index = len(state.tokens)
     text, end_pos = block.extract_block_quote(m, state)
     if not text.endswith("\n"):
         # ensure it endswith \n to make sure
@@ -39,7 +40,8 @@ def parse_block_spoiler(block: "BlockParser", m: Match[str], state: "BlockState"
     block.parse(child, rules)
     token = {"type": tok_type, "children": child.tokens}
     if end_pos:
-        state.prepend_token(token)
+        # in front of everything the interrupting block appended
+        state.tokens.insert(index, token)
         return end_pos
     state.append_token(token)
     return state.cursor
